@@ -28,7 +28,8 @@ def confusion_matrix(
     labels = np.asarray(labels)
     preds = np.asarray(preds)
 
-    n_class = np.max(labels) + 1
+    # A Python integer is used, as narrow dtypes (e.g., `int8`) would overflow
+    n_class = int(np.max(labels)) + 1
 
     c_matrix = np.zeros((n_class, n_class))
     for label, pred in zip(labels, preds):
@@ -74,7 +75,8 @@ def opf_accuracy(
     preds = np.asarray(preds)
 
     # A prediction may belong to a class that is absent from the true labels
-    n_class = max(np.max(labels), np.max(preds)) + 1
+    # (a Python integer is used, as narrow dtypes, e.g., `int8`, would overflow)
+    n_class = int(max(np.max(labels), np.max(preds))) + 1
 
     errors = np.zeros((n_class, 2))
     counts = np.bincount(labels, minlength=n_class)
@@ -110,7 +112,8 @@ def opf_accuracy_per_label(
     labels = np.asarray(labels)
     preds = np.asarray(preds)
 
-    n_class = np.max(labels) + 1
+    # A Python integer is used, as narrow dtypes (e.g., `int8`) would overflow
+    n_class = int(np.max(labels)) + 1
 
     errors = np.zeros(n_class)
     _, counts = np.unique(labels, return_counts=True)
